@@ -28,10 +28,15 @@ type c11Case struct {
 func placed(placement string, svc, top map[string]any, noise map[string]any) (loadCase, bool, bool) {
 	base := func() map[string]any {
 		web := map[string]any{"image": "nginx"}
+		db := map[string]any{"image": "postgres"}
 		for k, v := range noise {
+			if strings.HasPrefix(k, "db:") {
+				db[strings.TrimPrefix(k, "db:")] = cloneTree(v)
+				continue
+			}
 			web[k] = cloneTree(v)
 		}
-		return map[string]any{"services": map[string]any{"web": web, "db": map[string]any{"image": "postgres"}}}
+		return map[string]any{"services": map[string]any{"web": web, "db": db}}
 	}
 	switch placement {
 	case "main":
@@ -75,6 +80,7 @@ type c11Rule struct {
 	Name                          string
 	Implicit, Explicit, Different map[string]any // service fragments
 	TopI, TopE, TopD              map[string]any // top-level fragments
+	DB                            map[string]any // extra attributes of the second service `db`
 	Check                         string         // absolute check applied to the `different` variant
 	AbsentCheck                   string         // absolute check applied to the implicit variant
 }
@@ -100,6 +106,10 @@ func c11Rules() []c11Rule {
 			Different: kvm("networks", []any{"other"}), TopD: kvm("networks", kvm("other", nil)), Check: "web-only-on-other", AbsentCheck: "web-on-default"},
 		{Name: "default-network-declared", Implicit: kvm(), TopE: kvm("networks", kvm("default", nil)),
 			Different: kvm(), TopD: kvm("networks", kvm("default", kvm("driver", "overlay"))), Check: "default-network-overlay", AbsentCheck: "default-network-present"},
+		{Name: "default-network-single-explicit-user", DB: kvm("network_mode", "none"),
+			Implicit: kvm("networks", []any{"default", "other"}), TopI: kvm("networks", kvm("other", nil)),
+			Explicit: kvm("networks", []any{"default", "other"}), TopE: kvm("networks", kvm("other", nil, "default", nil)),
+			Different: kvm("networks", kvm("default", kvm("aliases", []any{"al"}))), TopD: kvm("networks", kvm("default", kvm("driver", "overlay"))), Check: "default-network-overlay", AbsentCheck: "default-network-present"},
 		{Name: "network-mode-no-default-network", Implicit: kvm("network_mode", "host"), Explicit: kvm("network_mode", "host"), Different: kvm("network_mode", "host"), Check: "web-no-networks", AbsentCheck: "web-no-networks"},
 		{Name: "network-name", TopI: kvm("networks", kvm("net1", nil)), TopE: kvm("networks", kvm("net1", kvm("name", "proj_net1"))),
 			TopD: kvm("networks", kvm("net1", kvm("name", "custom"))), Check: "network-name-custom"},
@@ -315,6 +325,17 @@ var c11Placements = []string{"main", "override", "extended-base", "included"}
 func c11Cases(noise map[string]any, noiseKey string) []c11Case {
 	var out []c11Case
 	for _, r := range c11Rules() {
+		noise := noise
+		if len(r.DB) > 0 {
+			n2 := map[string]any{}
+			for k, v := range noise {
+				n2[k] = v
+			}
+			for k, v := range r.DB {
+				n2["db:"+k] = v
+			}
+			noise = n2
+		}
 		for _, pl := range c11Placements {
 			a, disk1, ok1 := placed(pl, r.Implicit, r.TopI, noise)
 			explicit := r.Explicit
